@@ -284,6 +284,9 @@ add(Contract(
         "implies(self.field_name in defaults, same(slot(packet, self.field_name), defaults[self.field_name]))",
         # None or the given default
         "implies(not (self.field_name in defaults) and isnone(self.default), isnone(slot(packet, self.field_name)))",
+        # a declared default that is not immutable is copied per packet, never shared (as for every field, Field.init)
+        "implies(not (self.field_name in defaults) and not (isint(self.default) or isnone(self.default) or isbytes(self.default) or isstr(self.default)),"
+        "        fresh_since(slot(packet, self.field_name)))",
     ],
     raises={'OtherException*': []},
     modifies=['slot(packet, in:n == self.field_name or owns(self.prototype_field, n))'], allocates=True))
